@@ -218,6 +218,7 @@ class World:
         self.server_exits = []
         self.on_start = []       # callbacks(world) run after each server start
         self.tor_proxy_port = k.get('tor_proxy_port')      # None = no Tor proxy reachable
+        self.real_storage = k.get('real_storage')          # self-test: real LevelDB in this directory
         self.on_end = []         # callbacks(world) run when a server incarnation is gone
         _install_capture()
 
@@ -267,7 +268,9 @@ class World:
                    REORG_LIMIT=str(k['reorg_limit']), SESSION_TIMEOUT=str(k['session_timeout']),
                    REQUEST_TIMEOUT=str(k['request_timeout']),
                    COST_SOFT_LIMIT=str(k['cost_limits'][0]),
-                   COST_HARD_LIMIT=str(k['cost_limits'][1]), LOG_SESSIONS='0')
+                   COST_HARD_LIMIT=str(k['cost_limits'][1]), LOG_SESSIONS='0',
+                   DB_DIRECTORY=self.real_storage or '/db',
+                   DB_ENGINE='leveldb' if self.real_storage else 'simdb')
         if k['extra_env']:
             env.update(k['extra_env'])
         for key in ('REPORT_SERVICES', 'TOR_PROXY_HOST', 'TOR_PROXY_PORT', 'FORCE_PROXY',
@@ -405,6 +408,7 @@ class World:
             self._after_crash()
             return 'crash'
         self.server_exits.append(srv.exit)
+        self._close_real_dbs(srv)
         self.server = None
         self.net.reset_server_side()
         try:
@@ -417,8 +421,19 @@ class World:
             cb(self)
         return 'exit'
 
+    def _close_real_dbs(self, srv):
+        # a real process exit releases the LevelDB locks; inside one interpreter they must be closed
+        if self.real_storage and srv is not None and srv.db is not None:
+            for h in (srv.db.utxo_db, srv.db.history.db):
+                try:
+                    if h is not None:
+                        h.close()
+                except Exception:
+                    pass
+
     def _after_crash(self):
         srv = self.server
+        self._close_real_dbs(srv)
         self.server = None
         self.sim.dead = True
         if srv is not None:
